@@ -139,6 +139,7 @@ func runRecursion(r *rc) {
 					if base == nil {
 						base = otto.New()
 					}
+					r.Describe(fmt.Sprintf("SetStackDepthLimit(%d); Run(%q)", L, src))
 					r.Begin(key)
 					vm := base.Copy()
 					vm.SetStackDepthLimit(L)
@@ -152,7 +153,7 @@ func runRecursion(r *rc) {
 					}
 					r.Eval(obs == "RangeError")
 					r.Outcome(form.Name + ":" + strings.SplitN(obs, ":", 2)[0])
-					if r.WantSample() && (d == inf || d == L) {
+					if r.WantSample() && (d == inf || d == L) && sparse(key, 7) {
 						r.Sample(fmt.Sprintf("limit %d, %s recursion to depth %s => %s", L, form.Name, depthName(d), obs))
 					}
 					aux := map[string]string{"form": form.Name, "L": strconv.Itoa(L), "d": depthName(d), "obs": obs}
